@@ -290,9 +290,30 @@ def judged(case):
 
 
 # ------------------------------------------------------------------------------------ implementation
+def build_region_late(case):
+    """the same goal region reached by editing after construction: the last goal state appended to state_list later,
+    and a goal state's velocity / orientation constraint assigned after the region was built"""
+    gs = [build_goal_state(g) for g in case["goals"]]
+    lan = {i: [la["id"] for la in g["pos"]["lanelets"]] for i, g in enumerate(case["goals"])
+           if g.get("pos") is not None and g["pos"]["k"] == "lanelet"}
+    held = {}
+    for i, g in enumerate(gs):
+        for a in ("velocity", "orientation"):
+            if getattr(g, a, None) is not None and isinstance(g, GOAL_CARRIER["CustomState"]) is False:
+                held[(i, a)] = getattr(g, a)
+                setattr(g, a, None)
+    first = gs[:-1] if len(gs) > 1 else gs
+    region = GoalRegion(list(first), lan or None)
+    if len(gs) > 1:
+        region.state_list.append(gs[-1])
+    for (i, a), v in held.items():
+        setattr(region.state_list[i], a, v)
+    return region
+
+
 def observe(case):
     """('b', bool) | ('g', bool, idx) | ('exc', name)"""
-    region = build_region(case)
+    region = build_region_late(case) if case.get("late") else build_region(case)
     states = [build_state(s) for s in case["states"]]
     try:
         if case["op"] == "is_reached":
@@ -380,12 +401,26 @@ def gen_hist(rng, cases, every=5):
         moves = [[[dy(rng, -30, 30), dy(rng, -30, 30)], rng.choice([0.0, 0.0, dy(rng, -3, 3), 1.5])]
                  for _ in range(rng.choice([1, 1, 2]))]
         out.append(dict(c, hist=moves))
+    for c in cases[2::every]:
+        if judged(c) and not any(expected_state(c, s) == "inadmissible" for s in c["states"]):
+            out.append(dict(c, late=True))
     return out
+
+
+def oracle_late(case):
+    a, b = observe(case), observe(dict(case, late=False))
+    if a != b:
+        return (f"{case['op']}:history:answer depends on how the goal region was put together",
+                f"{case['op']} answers {a} when the last goal state is appended / constraints are assigned after the "
+                f"region was constructed, and {b} for the region constructed in one go: {brief(case)}")
+    return None
 
 
 def oracle(case):
     if case.get("hist"):
         return oracle_hist(case)
+    if case.get("late"):
+        return oracle_late(case)
     if not judged(case):
         return None
     exp = [expected_state(case, s) for s in case["states"]]
